@@ -369,37 +369,7 @@ func c19WStat(r *Run) {
 		r.Undecided("wstat", "(*FileRef).WStat", token.NoPos, "anchor not found")
 		return
 	}
-	r.SawFn(fnName(fn))
 	pt := newPT(p)
-	dirParam := fn.Params[len(fn.Params)-1]
-	isDirField := func(v ssa.Value, field string) bool {
-		f, ok := fieldOfValue(v, dirParam)
-		if ok && f == field {
-			return true
-		}
-		// the Dir parameter is spilled to a local: load of &local.field
-		if u, ok := v.(*ssa.UnOp); ok && u.Op == token.MUL {
-			if fa, ok := u.X.(*ssa.FieldAddr); ok && fieldName(fa.X.Type(), fa.Field) == field && isP9P(fa.X.Type(), "Dir") {
-				return true
-			}
-		}
-		return false
-	}
-	guarded := func(in ssa.Instruction, field string, sentinel func(ssa.Value) bool) bool {
-		for _, cd := range condsAtInstr(in) {
-			nc := normCond(cd)
-			b, ok := nc.V.(*ssa.BinOp)
-			if !ok || (b.Op != token.NEQ && b.Op != token.EQL) {
-				continue
-			}
-			for _, pair := range [][2]ssa.Value{{b.X, b.Y}, {b.Y, b.X}} {
-				if isDirField(pair[0], field) && sentinel(pair[1]) && (b.Op == token.NEQ) == nc.Truth {
-					return true
-				}
-			}
-		}
-		return false
-	}
 	allOnes32 := func(v ssa.Value) bool { c, ok := constInt(v); return ok && uint32(c) == 0xFFFFFFFF }
 	allOnes64 := func(v ssa.Value) bool {
 		c, ok := v.(*ssa.Const)
@@ -409,64 +379,144 @@ func c19WStat(r *Run) {
 		c, ok := v.(*ssa.Const)
 		return ok && c.Value != nil && c.Value.ExactString() == `""`
 	}
-	fa := p.FA(fn)
-	ownPath := func(v ssa.Value, at ssa.Instruction) bool {
-		c, ok := v.(*ssa.Call)
-		if !ok || calleeName(&c.Call) != "(ufs.FileRef).fullPath" {
-			return false
+	// a scope is WStat itself, or a helper it hands the request (or single fields of it) to: the helper's
+	// parameters stand for those fields, and a guard may sit at the call site instead of inside the helper
+	type wscope struct {
+		fn     *ssa.Function
+		dirs   []ssa.Value          // Dir-typed parameters standing for the request
+		bind   map[ssa.Value]string // parameter → field of the request it carries
+		outer  ssa.Instruction      // the call in the parent scope
+		parent *wscope
+	}
+	var isDirField func(sc *wscope, v ssa.Value, field string) bool
+	isDirField = func(sc *wscope, v ssa.Value, field string) bool {
+		if sc.bind[v] == field {
+			return true
 		}
-		if pt.classAt(fn, v, at, nil, 0) != pHC {
-			return false
+		for _, dp := range sc.dirs {
+			if f, ok := fieldOfValue(v, dp); ok && f == field {
+				return true
+			}
 		}
-		// the path must be current: no store into the FileRef (e.g. the rename's ref.Path = rel)
-		// between computing the host path and using it
-		if u, ok := c.Call.Args[0].(*ssa.UnOp); ok && u.Op == token.MUL {
-			cls := addrClass(u.X)
-			return fa.versionAt(u, cls) == fa.versionAt(at, cls)
+		// the Dir parameter is spilled to a local: load of &local.field
+		if u, ok := v.(*ssa.UnOp); ok && u.Op == token.MUL {
+			if fa, ok := u.X.(*ssa.FieldAddr); ok && fieldName(fa.X.Type(), fa.Field) == field && isP9P(fa.X.Type(), "Dir") {
+				return true
+			}
 		}
 		return false
 	}
-	n := 0
-	for _, c := range findCalls(fn, "os.Chmod") {
-		n++
-		okMode := false
-		if b, ok := unconv(c.Call.Args[1]).(*ssa.BinOp); ok && b.Op == token.AND && isDirField(b.X, "Mode") {
-			if m, ok := constInt(b.Y); ok && m == 0777 {
-				okMode = true
+	var guarded func(sc *wscope, in ssa.Instruction, field string, sentinel func(ssa.Value) bool) bool
+	guarded = func(sc *wscope, in ssa.Instruction, field string, sentinel func(ssa.Value) bool) bool {
+		for _, cd := range condsAtInstr(in) {
+			nc := normCond(cd)
+			b, ok := nc.V.(*ssa.BinOp)
+			if !ok || (b.Op != token.NEQ && b.Op != token.EQL) {
+				continue
+			}
+			for _, pair := range [][2]ssa.Value{{b.X, b.Y}, {b.Y, b.X}} {
+				if isDirField(sc, pair[0], field) && sentinel(pair[1]) && (b.Op == token.NEQ) == nc.Truth {
+					return true
+				}
 			}
 		}
-		r.Check(guarded(c, "Mode", allOnes32) && ownPath(c.Call.Args[0], c) && okMode, "wstat", "WStat: chmod(own path, dir.Mode&0777) only when Mode is not the sentinel", c.Pos(),
-			"mode change does not follow the request (sentinel ignored, other or stale path, or other bits)")
+		return sc.parent != nil && guarded(sc.parent, sc.outer, field, sentinel)
 	}
-	for _, c := range findCalls(fn, "os.Truncate") {
-		n++
-		okLen := false
-		if cv, ok := c.Call.Args[1].(*ssa.Convert); ok && isDirField(cv.X, "Length") {
-			okLen = true
+	n := 0
+	var scan func(sc *wscope, depth int)
+	scan = func(sc *wscope, depth int) {
+		fn := sc.fn
+		r.SawFn(fnName(fn))
+		fa := p.FA(fn)
+		ownPath := func(v ssa.Value, at ssa.Instruction) bool {
+			c, ok := v.(*ssa.Call)
+			if !ok || calleeName(&c.Call) != "(ufs.FileRef).fullPath" {
+				return false
+			}
+			if pt.classAt(fn, v, at, nil, 0) != pHC {
+				return false
+			}
+			// the path must be current: no store into the FileRef (e.g. the rename's ref.Path = rel)
+			// between computing the host path and using it
+			if u, ok := c.Call.Args[0].(*ssa.UnOp); ok && u.Op == token.MUL {
+				cls := addrClass(u.X)
+				return fa.versionAt(u, cls) == fa.versionAt(at, cls)
+			}
+			return false
 		}
-		r.Check(guarded(c, "Length", allOnes64) && ownPath(c.Call.Args[0], c) && okLen, "wstat", "WStat: truncate(own path, dir.Length) only when Length is not the sentinel", c.Pos(),
-			"length change does not follow the request (sentinel ignored, or it acts on another / a stale path, e.g. the pre-rename path)")
-	}
-	for _, c := range findCalls(fn, "syscall.Rename", "os.Rename") {
-		n++
-		r.Check(guarded(c, "Name", emptyStr) && ownPath(c.Call.Args[0], c), "wstat", "WStat: rename(own path, …) only when Name is set", c.Pos(), "rename does not follow the request")
-		// the new name enters the target
-		tgt := c.Call.Args[1]
-		okT := false
-		if ex, ok := tgt.(*ssa.Extract); ok {
-			if fc, ok := ex.Tuple.(*ssa.Call); ok && calleeName(&fc.Call) == "(*ufs.fServer).fullPath" {
-				for _, alt := range phiAlternatives(fc.Call.Args[1], 2) {
-					if jc, ok := alt.(*ssa.Call); ok && calleeName(&jc.Call) == "path.Join" {
-						el := varargsElems(jc.Call.Args[0])
-						if len(el) == 2 && isDirField(el[1], "Name") {
-							okT = true
+		for _, c := range findCalls(fn, "os.Chmod") {
+			n++
+			okMode := false
+			if b, ok := unconv(c.Call.Args[1]).(*ssa.BinOp); ok && b.Op == token.AND && isDirField(sc, b.X, "Mode") {
+				if m, ok := constInt(b.Y); ok && m == 0777 {
+					okMode = true
+				}
+			}
+			r.Check(guarded(sc, c, "Mode", allOnes32) && ownPath(c.Call.Args[0], c) && okMode, "wstat", "WStat: chmod(own path, dir.Mode&0777) only when Mode is not the sentinel", c.Pos(),
+				"mode change does not follow the request (sentinel ignored, other or stale path, or other bits)")
+		}
+		for _, c := range findCalls(fn, "os.Truncate") {
+			n++
+			okLen := false
+			if cv, ok := c.Call.Args[1].(*ssa.Convert); ok && isDirField(sc, cv.X, "Length") {
+				okLen = true
+			}
+			r.Check(guarded(sc, c, "Length", allOnes64) && ownPath(c.Call.Args[0], c) && okLen, "wstat", "WStat: truncate(own path, dir.Length) only when Length is not the sentinel", c.Pos(),
+				"length change does not follow the request (sentinel ignored, or it acts on another / a stale path, e.g. the pre-rename path)")
+		}
+		for _, c := range findCalls(fn, "syscall.Rename", "os.Rename") {
+			n++
+			r.Check(guarded(sc, c, "Name", emptyStr) && ownPath(c.Call.Args[0], c), "wstat", "WStat: rename(own path, …) only when Name is set", c.Pos(), "rename does not follow the request")
+			// the new name enters the target
+			tgt := c.Call.Args[1]
+			okT := false
+			if ex, ok := tgt.(*ssa.Extract); ok {
+				if fc, ok := ex.Tuple.(*ssa.Call); ok && calleeName(&fc.Call) == "(*ufs.fServer).fullPath" {
+					for _, alt := range phiAlternatives(fc.Call.Args[1], 2) {
+						if jc, ok := alt.(*ssa.Call); ok && calleeName(&jc.Call) == "path.Join" {
+							el := varargsElems(jc.Call.Args[0])
+							if len(el) == 2 && isDirField(sc, el[1], "Name") {
+								okT = true
+							}
 						}
 					}
 				}
 			}
+			r.Check(okT, "wstat", "WStat: rename target is the requested name in the entry's directory", c.Pos(), "the rename target is not built from dir.Name")
 		}
-		r.Check(okT, "wstat", "WStat: rename target is the requested name in the entry's directory", c.Pos(), "the rename target is not built from dir.Name")
+		if depth >= 1 {
+			return
+		}
+		// helpers of the package handed the request or fields of it
+		eachInstr(fn, func(in ssa.Instruction) {
+			c, ok := in.(*ssa.Call)
+			if !ok {
+				return
+			}
+			g := staticCallee(&c.Call)
+			if g == nil || g.Blocks == nil || g.Pkg != fn.Pkg || g == fn {
+				return
+			}
+			sub := &wscope{fn: g, bind: map[ssa.Value]string{}, outer: c, parent: sc}
+			for i, a := range c.Call.Args {
+				if i >= len(g.Params) {
+					break
+				}
+				for _, f := range []string{"Mode", "Length", "Name"} {
+					if isDirField(sc, a, f) {
+						sub.bind[g.Params[i]] = f
+					}
+				}
+				if isP9P(a.Type(), "Dir") {
+					sub.dirs = append(sub.dirs, g.Params[i])
+				}
+			}
+			if len(sub.bind) > 0 || len(sub.dirs) > 0 {
+				scan(sub, depth+1)
+			}
+		})
 	}
+	scan(&wscope{fn: fn, dirs: []ssa.Value{fn.Params[len(fn.Params)-1]}, bind: map[ssa.Value]string{}}, 0)
 	r.Floor("wstat", n, 3, "chmod/truncate/rename sites in WStat")
 }
 
@@ -624,8 +674,10 @@ func unconv(v ssa.Value) ssa.Value {
 
 // c19HostEffects: each file-system operation changes the host through exactly the host call that has the same
 // meaning, so that its outcome (success, error, resulting state) is the host's own:
-//   Remove → os.Remove;  WStat → os.Chmod / os.Chown / rename / os.Truncate on the path;  Create → os.Mkdir, os.OpenFile;
-//   Open → os.OpenFile;  Write → (*os.File).WriteAt.
+//
+//	Remove → os.Remove;  WStat → os.Chmod / os.Chown / rename / os.Truncate on the path;  Create → os.Mkdir, os.OpenFile;
+//	Open → os.OpenFile;  Write → (*os.File).WriteAt.
+//
 // A different mutating call — ftruncate on the open descriptor, rmdir/unlink chosen from a cached type — behaves
 // differently from the direct operation in corner cases (read-only descriptors, symlinks, stale type).
 func c19HostEffects(r *Run) {
